@@ -307,7 +307,37 @@ def selection(ctx):
                     flag.append(cur)
     ctx.check(len(flag) == 1, sk.key, 'flag local', 'select_subkeys does not return a single all-hybridized flag', '', sk.where())
     n = 0
+    computed = False
     if len(flag) == 1:
+        # `subkeys.iter().all(|k| k.is_hybridized())` over the very keys that are returned
+        alls = [d for d in sk.defs().get(flag[0], []) if d.kind == 'call' and d.call.is_(r'^std::iter::Iterator::all$')]
+        if alls and len(sk.defs().get(flag[0], [])) == 1:
+            from ..trans import chain_source, CHAIN_FLAGS
+            c = alls[0].call
+            computed = True
+            n += 1
+            src = chain_source(F, sk, c.args[0]) if c.args else None
+            fl = set(CHAIN_FLAGS[0])
+            returned = set()
+            for b in sorted(sk.live_blocks()):
+                for st in sk.stmts(b):
+                    rv = st['rv']
+                    if rv['k'] == 'agg' and rv.get('tuple') and len(rv['ops']) == 2 and sk.local_ty(st['lhs']['l']).startswith('(bool,') \
+                            and is_place(rv['ops'][1]):
+                        returned.add(lib.resolve_copy(sk, op_local(rv['ops'][1]))[0])
+            whole = src is not None and not fl and src[0] in returned and not src[1]
+            pred = False
+            for (_i, cb, _rv) in lib.closure_args(F, c):
+                srcs = copy_chain_sources(cb, {'cp': {'l': 0, 'p': []}}, through_calls=tuple(IDENTITY_CALLS))
+                pred = bool(srcs) and all(s[0] == 'call' and s[1].is_(r'RightPublicKey::is_hybridized$') and
+                                          any(r[0] == 'param' and r[1] == 2 for r in
+                                              copy_chain_sources(cb, s[1].args[0], through_calls=tuple(IDENTITY_CALLS))) for s in srcs)
+            ctx.check(whole and pred, sk.key, 'flag = all selected keys are hybridized',
+                      'the all-hybridized flag is computed by all(..) but not as "every returned key is_hybridized()" (%s): an '
+                      'encapsulation must be hybridized iff every selected key is'
+                      % ('the walk does not cover exactly the returned keys' if not whole else 'the predicate is not is_hybridized() of the element'),
+                      'subkeys.iter().all(|k| k.is_hybridized())', c.where())
+    if len(flag) == 1 and not computed:
         L = flag[0]
         direct = [d for d in sk.defs().get(L, []) if d.kind == 'assign' and d.via is None and not d.lhs['p']]
         consts = [d for d in direct if d.rv['k'] == 'use' and 'c' in d.rv['a']]
